@@ -467,7 +467,11 @@ func TestDrv_E2E(t *testing.T) {
 	if err != nil {
 		t.Fatal(err)
 	}
-	tr.Emit("Reset", nil)
+	asking := os.Getenv("VERIF_FOR") // the check this run belongs to: flags that are no concern of its property are not judged
+	if asking == "" {
+		asking = "ACMD"
+	}
+	tr.Emit("Reset", KV{"for": asking})
 	requests, results := 0, 0
 	var samples []any
 	for k, c := range cases {
